@@ -60,6 +60,17 @@ func safe(names ...string) []Slot {
 	}
 	return s
 }
+
+// safeNoRep: printed as safe locally (special-case printer / user
+// SafeFormatter) but outside the list of information C12 requires to be
+// retained after transfer.
+func safeNoRep(names ...string) []Slot {
+	var s []Slot
+	for _, n := range names {
+		s = append(s, Slot{Name: n, Safe: true, NoReport: true})
+	}
+	return s
+}
 func unsafe(names ...string) []Slot {
 	var s []Slot
 	for _, n := range names {
@@ -294,7 +305,7 @@ func init() {
 	reg(&Op{Name: "ut.FELeaf", Kind: KLeaf, Slots: unsafe("msg", "detail"), Class: "user-leaf", Unreg: true,
 		Build: func(s []string, _ error, _ []error) error { return &ut.FELeaf{Msg: s[0], Detail: s[1]} },
 		Model: func(s []string, _ *Node, _ []*Node) *Node { return foreignLeaf(s[0], s[0], s[1]) }})
-	reg(&Op{Name: "ut.SFELeaf", Kind: KLeaf, Slots: slots(safe("safepart"), unsafe("unsafepart")), Class: "user-leaf", Unreg: true,
+	reg(&Op{Name: "ut.SFELeaf", Kind: KLeaf, Slots: slots(safeNoRep("safepart"), unsafe("unsafepart")), Class: "user-leaf", Unreg: true,
 		Build: func(s []string, _ error, _ []error) error { return &ut.SFELeaf{SafePart: s[0], UnsafePart: s[1]} },
 		Model: func(s []string, _ *Node, _ []*Node) *Node {
 			n := Leaf(s[0] + " " + s[1])
@@ -356,7 +367,7 @@ func init() {
 	reg(&Op{Name: "WithSecondaryError", Kind: KWrap, NSide: 1, Class: "secondary", Lib: true, Core: true,
 		Build: func(s []string, c error, side []error) error { return errors.WithSecondaryError(c, side[0]) },
 		Model: func(s []string, c *Node, side []*Node) *Node { return Secondary(c, side[0]) }})
-	reg(&Op{Name: "Mark", Kind: KWrap, NSide: 1, Class: "mark", Lib: true, Core: true,
+	reg(&Op{Name: "Mark", Kind: KWrap, NSide: 1, Class: "mark", Lib: true, Core: true, SideIsReference: true,
 		Build: func(s []string, c error, side []error) error { return errors.Mark(c, side[0]) },
 		Model: func(s []string, c *Node, side []*Node) *Node { n := Annot(c); n.MarkOf = side[0]; return n }})
 	reg(&Op{Name: "ut.UnwrapW", Kind: KWrap, Slots: unsafe("msg"), Class: "user-prefix", Unreg: true, Core: true,
@@ -550,7 +561,7 @@ func init() {
 			n.Safe = s
 			return n
 		}})
-	reg(&Op{Name: "net.OpError", Kind: KWrap, Slots: slots(safe("op", "net"), unsafe("addr")), Class: "foreign-prefix", Unreg: true,
+	reg(&Op{Name: "net.OpError", Kind: KWrap, Slots: slots(safeNoRep("op", "net"), unsafe("addr")), Class: "foreign-prefix", Unreg: true,
 		Build: func(s []string, c error, _ []error) error {
 			return &net.OpError{Op: s[0], Net: s[1], Addr: Addr{s[2]}, Err: c}
 		},
@@ -568,7 +579,7 @@ func init() {
 	// With a Source address net.OpError.Error() prints "src->addr" while
 	// the library's special-case printer prints "src -> addr" (pinned by
 	// safedetails.TestRedact): explored in the quirk pass.
-	reg(&Op{Name: "net.OpError_src", Kind: KWrap, Slots: slots(safe("op", "net"), unsafe("src", "addr")), Class: "foreign-prefix", Unreg: true, QuirkOf: "net.OpError",
+	reg(&Op{Name: "net.OpError_src", Kind: KWrap, Slots: slots(safeNoRep("op", "net"), unsafe("src", "addr")), Class: "foreign-prefix", Unreg: true, QuirkOf: "net.OpError",
 		Build: func(s []string, c error, _ []error) error {
 			return &net.OpError{Op: s[0], Net: s[1], Source: Addr{s[2]}, Addr: Addr{s[3]}, Err: c}
 		},
